@@ -44,6 +44,8 @@ M = [
     ("C16-cli-drop-low-ignored", "C16", "cnvlib/commands.py", "        args.min_probes,\n        args.drop_low_coverage,\n        args.male_reference,\n        is_sample_female,", "        args.min_probes,\n        False,\n        args.male_reference,\n        is_sample_female,"),
     ("C17-cli-alpha-default", "C17", "cnvlib/commands.py", "    sig = do_bintest(cnarr, segments, args.alpha, args.target)", "    sig = do_bintest(cnarr, segments, target_only=args.target)"),
     ("C17-cli-smooth-ignored", "C17", "cnvlib/commands.py", "        args.bootstrap,\n        args.smooth_bootstrap,\n", "        args.bootstrap,\n        False,\n"),
+    ("C04-clip", "C04", "cnvlib/fix.py", "    weights = weights.clip(epsilon, 1.0)\n", "    weights = weights.clip(0, 1.0)\n"),
+    ("C04-nan-weights-back", "C04", "cnvlib/fix.py", "    weights[np.isnan(weights)] = epsilon\n", ""),
     # ---- C06
     ("C06-merge-abutting", "C06", "skgenome/merge.py", "group_keys = np.r_[False, gap_sizes > (-bp)].cumsum()", "group_keys = np.r_[False, gap_sizes >= (-bp)].cumsum()"),
     ("C06-merge-no-cummax", "C06", "skgenome/merge.py", "    gap_sizes = table.start.values[1:] - table.end.cummax().values[:-1]\n    group_keys",
